@@ -223,6 +223,25 @@ def run(ctx):
                         dest.setdefault(key, set()).add(n.arg)
             elif isinstance(par, ast.keyword):
                 dest.setdefault(key, set()).add(par.arg)
+        # the text is stored as it is: a variable that holds it is not rebound to anything computed from it
+        for c, key in dest_sites:
+            par = getattr(c, '_parent', None)
+            if isinstance(par, ast.Assign) and isinstance(par.targets[0], ast.Name):
+                var = par.targets[0].id
+                for n in ast.walk(fn):
+                    rebinding = None
+                    if isinstance(n, ast.Assign) and any(isinstance(t, ast.Name) and t.id == var for t in n.targets) and n is not par:
+                        rebinding = n.value
+                    elif isinstance(n, ast.AugAssign) and isinstance(n.target, ast.Name) and n.target.id == var:
+                        rebinding = n.value
+                    if rebinding is None:
+                        continue
+                    harmless = (isinstance(rebinding, ast.Constant) and rebinding.value is None) or (
+                        isinstance(rebinding, ast.Call) and ((dotted(rebinding.func) or '').split('.')[-1] == 'tokens_to_string' or rebinding is c))
+                    ctx.ob('C16.text-is-token-values', f'{fn.name}@{fn.lineno}:{var}-rewritten', harmless,
+                           f'action {fn.name} rewrites the text of the embedded query after rebuilding it (`{var} = {norm(rebinding)[:70]}`): the stored query must be '
+                           f'the token text, any edit of it (splitting at `;`, stripping, re-joining) also edits string literals inside it', file=g.file, line=n.lineno,
+                           witness="CREATE JOB j (select 'a;b')")
         for key, fields in sorted(dest.items()):
             ctx.ob('C16.order-preserving', f'{fn.name}@{fn.lineno}:{key}->{sorted(fields)}', fields <= STORE_FIELDS and bool(fields),
                    f'action {fn.name} stores the text of {key} in {sorted(fields)}', file=g.file, line=fn.lineno)
